@@ -45,8 +45,9 @@ func TestPropDisconnect(t *testing.T) {
 			rt.Fatalf("VERIF-INCONCLUSIVE: %v", err)
 		}
 		defer px.Close()
-		var running sync.WaitGroup
+		var running, replied sync.WaitGroup
 		running.Add(n)
+		replied.Add(n)
 		replyNow, replyLate := make(chan struct{}), make(chan struct{})
 		wait := func(r res.Resource) {
 			i := 0
@@ -62,11 +63,17 @@ func TestPropDisconnect(t *testing.T) {
 		s.SetLogger(nil)
 		s.SetWorkerCount(workers)
 		s.Handle("m.$id",
-			res.Access(func(r res.AccessRequest) { wait(r); r.AccessGranted() }),
-			res.GetModel(func(r res.ModelRequest) { wait(r); r.Model(map[string]string{"id": r.PathParam("id")}) }),
-			res.Call("do", func(r res.CallRequest) { wait(r); r.OK(r.PathParam("id")) }),
-			res.Auth("do", func(r res.AuthRequest) { wait(r); r.OK(r.PathParam("id")) }),
+			res.Access(func(r res.AccessRequest) { defer replied.Done(); wait(r); r.AccessGranted() }),
+			res.GetModel(func(r res.ModelRequest) {
+				defer replied.Done()
+				wait(r)
+				r.Model(map[string]string{"id": r.PathParam("id")})
+			}),
+			res.Call("do", func(r res.CallRequest) { defer replied.Done(); wait(r); r.OK(r.PathParam("id")) }),
+			res.Auth("do", func(r res.AuthRequest) { defer replied.Done(); wait(r); r.OK(r.PathParam("id")) }),
 		)
+		// answered at once: a probe sent after every handler has replied
+		s.Handle("probe", res.GetModel(func(r res.ModelRequest) { r.Model(map[string]int{"probe": 1}) }))
 		started := make(chan struct{})
 		s.SetOnServe(func(*res.Service) { close(started) })
 		disc, reconn := make(chan struct{}, 4), make(chan struct{}, 4)
@@ -143,11 +150,32 @@ func TestPropDisconnect(t *testing.T) {
 			rt.Fatalf("VERIF-INCONCLUSIVE: the service did not reconnect")
 		}
 		close(replyLate)
+		// Every handler has handed its reply to the connection; then a probe request is sent
+		// and answered. Messages of one connection arrive in order, so once the probe's response
+		// is here, every reply that was not lost is here as well (no wall-clock verdict).
+		allReplied := make(chan struct{})
+		go func() { replied.Wait(); close(allReplied) }()
+		select {
+		case <-allReplied:
+		case <-time.After(60 * time.Second):
+			stop()
+			rt.Fatalf("VERIF-INCONCLUSIVE: the handlers did not finish within 60s")
+		}
+		// (the client library reports the reconnect before the server has necessarily processed
+		// the re-sent subscriptions: a ping round trip on the service's connection comes first)
+		if snc, ok := s.Conn().(*nats.Conn); !ok || snc.FlushTimeout(60*time.Second) != nil {
+			stop()
+			rt.Fatalf("VERIF-INCONCLUSIVE: the service's connection could not be flushed after the reconnect")
+		}
+		if _, err := client.Request("get.svc.probe", nil, 60*time.Second); err != nil {
+			stop()
+			rt.Fatalf("VERIF-INCONCLUSIVE: the probe request was not answered within 60s: %v", err)
+		}
 		msg := ""
 		for i, sub := range subs {
-			m, err := sub.NextMsg(5 * time.Second)
+			m, err := sub.NextMsg(200 * time.Millisecond)
 			if err != nil {
-				msg = fmt.Sprintf("request %d (%s, replied %s) got no response within 5s after the connection was back", i, kinds[i], map[bool]string{true: "while the service was cut off", false: "after the reconnect"}[during[i]])
+				msg = fmt.Sprintf("request %d (%s, replied %s) got no response although a later request on the same connection has been answered", i, kinds[i], map[bool]string{true: "while the service was cut off", false: "after the reconnect"}[during[i]])
 				break
 			}
 			if len(m.Data) == 0 || m.Data[0] != '{' {
